@@ -112,6 +112,13 @@ def build_family(c, P):
     k = c.choose(len(ts), 'template')
     stream = []
     n = 0
+    # complete messages BEFORE the fragmented one (what an earlier message leaves behind in the parser must not matter)
+    before = F.get('before')
+    bcls = ''
+    if before:
+        b = before[c.choose(len(before), 'before')]
+        stream.extend(bytes.fromhex(b))
+        bcls = ':after-' + (b[:2] or 'none')
     for hdr, ln in ts[k]:
         stream.extend(hdr)
         for _ in range(ln):
@@ -120,7 +127,12 @@ def build_family(c, P):
     tail = F.get('tail_sym', 0)
     for i in range(tail):
         stream.append(c.byte('t%d' % i))
-    return stream, 'tmpl%d' % len(ts[k])
+    after = F.get('after')
+    if after:
+        a = after[c.choose(len(after), 'after')]
+        stream.extend(bytes.fromhex(a))
+        bcls += ':then-' + (a[:2] or 'none')
+    return stream, 'tmpl%d%s' % (len(ts[k]), bcls)
 
 
 def run_recv(c, P):
@@ -136,19 +148,24 @@ def run_recv(c, P):
         tcls = 'plen%d' % (len(stream) - 2 - len(P.get('suffix', '')) // 2)
     else:
         stream = build_stream(c, P)
-    w.default_script = HsThenCuts(w, hconn.server_stream(stream), P.get('cuts', 'one'), end='eof')
+    extra = b''
+    if P.get('negotiate_compression'):
+        # permessage-deflate offered (compress=True) and accepted by the server; the incoming frames stay uncompressed
+        # (RSV1 clear), which the extension allows per message
+        extra = b'Sec-WebSocket-Extensions: permessage-deflate\r\n'
+    w.default_script = HsThenCuts(w, hconn.server_stream(stream, extra), P.get('cuts', 'one'), end='eof')
     if P.get('reads') == 'joined':
         # the upgrade reply and the frames behind it arrive in the SAME read (as much as the receive buffer takes)
-        w.default_script = Script(hconn.server_stream(stream), cuts='one', end='eof')
+        w.default_script = Script(hconn.server_stream(stream, extra), cuts='one', end='eof')
     elif P.get('reads') == 'tls16k':
         # TLS-like: the reply is split over two records (split position = solver variable), the following records are full
         k = [1, 17, 100][c.choose(3, 'hs_split')]
-        w.default_script = Script(hconn.server_stream(stream), cuts=[k] + [16384] * 12, end='eof')
+        w.default_script = Script(hconn.server_stream(stream, extra), cuts=[k] + [16384] * 12, end='eof')
         tcls = (tcls or '') + ':split%d' % k
     if P.get('fault'):
         F = P['fault']
         w.fault_hook = env.SymFaults(F['ops'], F.get('kinds', ['oserror']), F.get('max', 1), F.get('skip'))
-    ws = L.WebSocket('ws://example.com/')
+    ws = L.WebSocket('ws://example.com/', compress=bool(P.get('negotiate_compression')))
     auto_pong = P.get('auto_pong', True)
     if auto_pong == 'sym':
         auto_pong = bool(c.boolean('auto_pong'))
